@@ -116,3 +116,45 @@ Theorem C16_crash_recovery_succeeds : forall ops,
      rc_seq rc = nops (firstn (crash_k prun_init ops n torn) (acked_batches 0 ops)).
 Proof. exact crash_recovery_succeeds_P. Qed.
 Print Assumptions C16_crash_recovery_succeeds.
+
+
+(** * Recovery FROM a crash image re-establishes the invariant: histories of sessions that end in a
+    crash (torn tails included) or cleanly, each opening what the previous one left *)
+From RainVerif.proofs Require Import ProtoCrash ProtoHistory.
+Theorem C16_crashed_recovers : forall img bs, Crashed img bs -> crash_ok img bs.
+Proof. exact Crashed_crash_ok. Qed.
+Print Assumptions C16_crashed_recovers.
+
+Theorem C16_open_step_crashed : forall o img bs d' ops,
+  Crashed img bs -> open_okb o img = true ->
+  p_open o img = Some (d', ops) ->
+  pd_img d' = apply_fsops img ops /\
+  InvE d' bs /\
+  all_crash (fun i => Crashed i bs) img ops.
+Proof. exact open_step_c. Qed.
+Print Assumptions C16_open_step_crashed.
+
+(** one session (open ... then a crash anywhere or a clean end) from a [Crashed] directory *)
+Theorem C16_session_safe : forall img bs s,
+  Crashed img bs -> session_okP img s ->
+  Crashed (session_end img s) (bs ++ session_keeps img (nops bs) s).
+Proof. exact session_safe. Qed.
+Print Assumptions C16_session_safe.
+
+Theorem C16_history_safe_from_empty : forall h,
+  hist_ok empty_image h = true ->
+  crash_ok (fst (hist_end empty_image [] h)) (snd (hist_end empty_image [] h)).
+Proof. exact history_safe_b. Qed.
+Print Assumptions C16_history_safe_from_empty.
+
+(** C16: after a crash (e.g. a torn log tail), a session that reopens (any oracle, either reuse setting), writes,
+    and ends cleanly or in a later crash keeps what the crash preserved and its own acknowledged prefix *)
+Theorem C16_writes_after_recovery_survive : forall img bs s,
+  Crashed img bs -> session_okP img s ->
+  (i_current (session_end img s) = None /\ bs ++ session_keeps img (nops bs) s = []) \/
+  exists rc, recover_image (session_end img s) = inl rc /\
+     rec_contents (session_end img s) rc = replay [] (bs ++ session_keeps img (nops bs) s) /\
+     rc_seq rc = nops (bs ++ session_keeps img (nops bs) s).
+Proof. exact writes_after_recovery_survive. Qed.
+Print Assumptions C16_writes_after_recovery_survive.
+
